@@ -942,6 +942,9 @@ class Trace:
     def values(self):
         return [l for l in self.leaves if l.kind != "const"]
 
+    def stops(self):
+        return [l for l in self.leaves if l.kind == "stop"]
+
     def opaque(self):
         return [l for l in self.leaves if l.kind == "opaque" or (l.sel and l.kind != "param")]
 
@@ -988,13 +991,15 @@ def contains(outer, inner) -> bool:
     return False
 
 
-def trace(ctx, scope: Scope, expr, sel: tuple = (), max_depth: int = 60) -> Trace:
+def trace(ctx, scope: Scope, expr, sel: tuple = (), max_depth: int = 60, stop=None) -> Trace:
     """Follow the value of `expr` (or, with `sel`, a component of it) back to the expressions that produce it.
     Passes through: locals (all reaching definitions), tuple packing/unpacking, loop and comprehension variables over
     zip/enumerate/dict.items(), list literals/comprehensions/append/extend/`+=`, dict literals and stores with constant keys,
     `D.setdefault(k, v)`, conditional expressions, `x or default`, value wrappers (float/int/round), container wrappers
     (list/asarray/...), and calls of repository helpers (every `return`, parameters mapped back to the arguments).
-    Ends at constants, parameters of the root function, arithmetic and anything else (leaf kind 'opaque' when selectors are left)."""
+    Ends at constants, parameters of the root function, arithmetic and anything else (leaf kind 'opaque' when selectors are left).
+    `stop`: identities (name_ident) of names at which the trace ends with a leaf of kind 'stop' when the value passes through
+    them unchanged."""
     res = Trace()
     seen = set()
 
@@ -1222,6 +1227,9 @@ def trace(ctx, scope: Scope, expr, sel: tuple = (), max_depth: int = 60) -> Trac
             return
         if isinstance(e, ast.Name):
             res.waypoints.append((sc, e, s))
+            if stop and not s and name_ident(ctx, sc, e) in stop:
+                leaf(sc, e, s, "stop")
+                return
             cb = _comp_binding(e)
             if cb is not None:
                 g, p = cb
